@@ -24,7 +24,7 @@ open CuqiVerif CuqiVerif.Proto CuqiVerif.C08
     -> done (fewer than k evaluations) | cur.x | cur.logd | cur.grad | acc | completed doublings
   abortresume <same arguments as nuts> <k> <r2> <e2> <uniforms2>   (interrupted at evaluation k, then one more transition of the resumed sampler)
     -> done | <nutsabort output> :: <nuts output of the transition from the abort state with momentum r2, slice offset e2, draws uniforms2>
-  history <guard> <maxDepth> <eps> <P> <b> <wall> <x0> then per operation: `S <r> <e> <uniforms>` | `R` (reinitialize) | `C` (state round trip, same object) | `CO <x0'> <eps0'>` (into another object)
+  history <guard> <maxDepth> <eps> <P> <b> <wall> <x0> then per operation: `S <r> <e> <uniforms>` | `R` (reinitialize) | `C` (state round trip, same object) | `CO <x0'> <eps0'>` (into another object) | `T <P> <b> <wall> <here>` (target replaced; here=1: initial_point = current_point; then reinitialize())
     -> per operation, joined by ` :: `: x | logd | grad | acc | consumed | margin | max_depth in force | step size in force   (acc/consumed/margin `-` for R and C)
   nutsstat <same arguments as nuts>   -> ones | exps | zeros | nans | n_alpha | margin   (of the last doubling executed; `unset` if none)
 -/
@@ -90,17 +90,38 @@ def parseOps : List String → Option (List HOp)
     | _, _, _, _ => none
   | _ => none
 
-def historyOut (t : Target) (guard : PS → Bool) : HState → List HOp → List String
+/-- operations of a `history` line including `T <P> <b> <wall> <here>` (target replaced, then restart) -/
+def parseOps2 : List String → Option (List HOp2)
+  | [] => some []
+  | "R" :: rest => (parseOps2 rest).map (HOp2.op HOp.reinit :: ·)
+  | "C" :: rest => (parseOps2 rest).map (HOp2.op (HOp.restore none) :: ·)
+  | "CO" :: x0' :: eps0' :: rest =>
+    match parseVec x0', parseRat eps0', parseOps2 rest with
+    | some x0', some eps0', some ops => some (HOp2.op (HOp.restore (some (x0', eps0'))) :: ops)
+    | _, _, _ => none
+  | "S" :: r :: e :: us :: rest =>
+    match parseVec r, parseRat e, parseVec us, parseOps2 rest with
+    | some r, some e, some us, some ops => some (HOp2.op (HOp.step r e us) :: ops)
+    | _, _, _, _ => none
+  | "T" :: P :: b :: wall :: here :: rest =>
+    match parseMat P, parseVec b, parseWall wall, parseNat here, parseOps2 rest with
+    | some P, some b, some wall, some here, some ops =>
+      some (HOp2.retarget { P := P, b := b, wall := wall.1, wallVal := wall.2 } (here = 1) :: ops)
+    | _, _, _, _, _ => none
+  | _ => none
+
+def historyOut (guard : PS → Bool) : Target × HState → List HOp2 → List String
   | _, [] => []
-  | s, op :: ops =>
-    let s' := hApply t guard s op
+  | ts, op :: ops =>
+    let ts' := hApply2 guard ts op
+    let s' := ts'.2
     let info := match op with
-      | .step r e us =>
-        match hStepLoop t guard s r e us with
+      | .op (.step r e us) =>
+        match hStepLoop ts.1 guard ts.2 r e us with
         | some (c, st) => s!"{fmtBool st.acc} | {us.length - st.us.length} | {fmtRat (margin c st.last)}"
         | none => "err | err | 0"
       | _ => "- | - | -"
-    s!"{fmtVec s'.x} | {fmtXR s'.logd} | {fmtVec s'.grad} | {info} | {s'.md} | {fmtRat s'.eps}" :: historyOut t guard s' ops
+    s!"{fmtVec s'.x} | {fmtXR s'.logd} | {fmtVec s'.grad} | {info} | {s'.md} | {fmtRat s'.eps}" :: historyOut guard ts' ops
 
 def step : List String → String
   | ["trace", g, md, eps, P, b, wall, x, r, e, us] =>
@@ -234,13 +255,13 @@ def step : List String → String
       | _ => "err-nonfinite-start"
     | _, _, _, _, _, _, _, _, _, _, _, _, _, _ => "bad-op"
   | "history" :: g :: md :: eps :: P :: b :: wall :: x0 :: ops =>
-    match parseNat g, parseNat md, parseRat eps, parseMat P, parseVec b, parseWall wall, parseVec x0, parseOps ops with
+    match parseNat g, parseNat md, parseRat eps, parseMat P, parseVec b, parseWall wall, parseVec x0, parseOps2 ops with
     | some g, some md, some eps, some P, some b, some wall, some x0, some ops =>
       let t : Target := { P := P, b := b, wall := wall.1, wallVal := wall.2 }
       let guard : PS → Bool := if g = 1 then (fun z => z.logd.isFinite) else (fun _ => true)
       if ops.isEmpty then "bad-op" else
       match t.logd x0 with
-      | .fin _ => " :: ".intercalate (historyOut t guard (hInit t md eps x0) ops)
+      | .fin _ => " :: ".intercalate (historyOut guard (t, hInit t md eps x0) ops)
       | _ => "err-nonfinite-start"
     | _, _, _, _, _, _, _, _ => "bad-op"
   | ["adaptexp", le0, mu, delta, nb, interval, n, als, sqs, ets] =>
